@@ -226,7 +226,10 @@ class Story(MosElement):
         self._duration = duration
         self._unknown_items = unknown_items
         self._prog_start_time = prog_start_time
-        self._story_offsets = _get_story_offsets(all_stories)
+        # offsets are worked out when asked for: listing the stories (which
+        # merging does to find story IDs) must not depend on every story's
+        # timing metadata being numeric
+        self._all_stories = all_stories
 
     @property
     def id(self) -> Optional[str]:
@@ -268,10 +271,10 @@ class Story(MosElement):
         """
         The time offset of the story in seconds (if available in the XML)
         """
-        try:
-            return self._story_offsets.get(self.id)
-        except AttributeError:
+        story_offsets = _get_story_offsets(self._all_stories)
+        if story_offsets is None:
             return
+        return story_offsets.get(self.id)
 
     @property
     def start_time(self) -> Optional[datetime]:
